@@ -151,7 +151,7 @@ def _dfs(build, spec, stack, report, budget):
     opts, bound = spec["opts"], spec["bound"]
     stats = {"executions": 0, "points": 0, "states": set(), "outcomes": set(),
              "violations": [], "diverged": 0, "infra": [], "point_kinds": {},
-             "max_choices": 0, "samples": []}
+             "max_choices": 0, "samples": [], "stopped": False}
     contaminated = False
     while stack and not contaminated:
         if budget is not None and stats["executions"] >= budget:
@@ -191,6 +191,11 @@ def _dfs(build, spec, stack, report, budget):
             stats["violations"].append({"key": key, "what": what, "choices": ex.choices})
         if not ex.clean or verdict.get("violations"):
             contaminated = True
+        if verdict.get("violations") and not spec.get("keep_going"):
+            # one counterexample decides the scenario; the rest of its schedules adds nothing
+            stats["stopped"] = True
+            stack = []
+            break
         # children: every alternative at every later point within the bound
         cost = ex.cost_before(len(prefix))
         for index in range(len(prefix), len(ex.trace)):
@@ -244,7 +249,7 @@ def explore_scenario(spec: Dict[str, Any]) -> Dict[str, Any]:
     total = {"executions": 0, "points": 0, "states": 0, "outcomes": set(),
              "violations": [], "diverged": 0, "infra": [], "point_kinds": {},
              "max_choices": 0, "samples": [], "forks": 0, "spec": spec["params"],
-             "capped": False}
+             "capped": False, "stopped": False}
     states = set()
     stack: List[List[str]] = [list(p) for p in spec.get("roots", [[]])]
     budget = spec.get("budget")
@@ -255,6 +260,7 @@ def explore_scenario(spec: Dict[str, Any]) -> Dict[str, Any]:
         remaining = None if budget is None else budget - total["executions"]
         stats, stack = _in_child(_dfs_child, (spec, stack, remaining))
         total["forks"] += 1
+        total["stopped"] = total["stopped"] or stats["stopped"]
         for key in ("executions", "points", "diverged"):
             total[key] += stats[key]
         states |= stats["states"]
